@@ -387,6 +387,10 @@ def run(prog, rep):
               "_validate_values converts inside try/except Exception", "ok",
               "_validate_values no longer converts every value with dtypes.get(val, self.dtype) under `except Exception: return False`", vv.where,
               witness="an unconvertible value raises something else than ValueError, or passes validation")
+    from ..report import import_verdicts
+    import_verdicts(prog, rep, "C11", ("ALIAS-1",), "STORE-1",
+                    "the values setter stores the list it has just converted on every normal path: a shortcut that keeps the old list when the "
+                    "new one compares equal (1 == 1.0 == True) leaves values of the previous dtype behind after a dtype change")
     rep.assume("python's int()/float()/str()/strptime return the types their names say")
 
 
